@@ -165,6 +165,13 @@ impl ZmtpEngine {
     }
   }
 
+  /// Encode one data-phase control frame (PING / PONG) with the framer in force.
+  fn frame_control(&mut self, msg: crate::Msg) -> Result<Bytes, ZmqError> {
+    let mut fb = FrameBatch::new();
+    fb.push(msg);
+    self.framer.write_msg_multipart(fb)
+  }
+
   /// Encode a single logical multipart message (FrameBatch) to wire bytes.
   pub fn frame_msgs(&mut self, msgs: FrameBatch) -> Result<Bytes, ZmqError> {
     self.framer.write_msg_multipart(msgs)
@@ -253,7 +260,9 @@ impl ZmtpEngine {
           .map(|d| d.as_millis().min(u16::MAX as u128) as u16)
           .unwrap_or(0);
         let ping_msg = ZmtpCommand::create_ping(ttl_ms, &[]);
-        match encode_msg(ping_msg) {
+        // Through the active framer, like all data-phase traffic: a plain frame inside an
+        // encrypted stream would be taken for a record header by the peer.
+        match self.frame_control(ping_msg) {
           Ok(data) => {
             out.net_actions.push(NetAction::Send {
               data,
@@ -749,7 +758,9 @@ impl ZmtpEngine {
         match ZmtpCommand::parse(&msg) {
           Some(ZmtpCommand::Ping(ctx)) => {
             let pong = ZmtpCommand::create_pong(&ctx);
-            match encode_msg(pong) {
+            // Data-phase traffic goes through the active framer: on an encrypted link the peer's
+            // record layer could not read a plain frame (the NULL/PLAIN framer writes the same bytes).
+            match self.frame_control(pong) {
               Ok(data) => out.net_actions.push(NetAction::Send {
                 data,
                 zc_eligible: false,
